@@ -41,6 +41,14 @@ add("C09", "exploration",
     "Exhaustive enumeration of every disjoint row set (<=3-4 rows, rows longer than the window included) x every law-abiding chunking x every window (l,r) in {0..3}^2 x {per-row, per-group} window-local computations x {single, multi-output} OverlapWindowPlugins through Context.get_iter; oracle: one computation over the whole run; contiguity; a strict consumer of both outputs of the multi-output variant checks mutual alignment.",
     "small-scope hypothesis; window-local computations by construction; single-thread processor (the plugin logic is processor independent)",
     "bounded exhaustive enumeration of inputs on the implementation vs whole-run reference", "graphs")
+add("C10", "exploration",
+    "Exhaustive enumeration of every time range with endpoints on the half-step grid around a stored run (on / just inside / just outside every row and chunk boundary, and outside the run) x {time_range, seconds_range, time_within} x {fully_contained, touching} x three on-disk layouts (as produced, 1-row chunks, one chunk), with row selections (string, list, callable), kept / dropped columns, single and merged same-kind targets and both processors rotating (quick) or in full product (thorough); oracle: predicate and projection applied to the whole-run result, explicit error for ranges overlapping no chunk, directory listing unchanged.",
+    "one 6-row run; time unit chosen so seconds_range values are exact; threaded runs under the fixed default schedule of the controlled scheduler",
+    "bounded exhaustive enumeration of inputs x configurations on the implementation vs filtered whole-run reference", "graphs")
+add("C12", "exploration",
+    "Exhaustive enumeration of (violation kind x plugin kind x offending chunk position x processor x target) with the violation injected by tampering with the return value of an otherwise correct harness plugin (wrong dtype bare / inside a Chunk, rows before / after the chunk range, foreign data-type label, overlapping or gapped target chunks, non-dict from a multi-output plugin); oracle: Context.get_array raises and a fresh Context reports the offending data type and all its descendants as not stored; threaded cells additionally explored over schedules with <=1 delay.",
+    "violations are injected at the plugin's compute boundary; chunks of 1-2 rows; schedule exploration to delay bound 1 (quick: a rotating 1/12 slice of the threaded cells, thorough: all)",
+    "bounded exhaustive enumeration of fault kinds x positions x configurations on the implementation (+ delay-bounded schedule exploration)", "graphs")
 add("C13", "model_checking",
     "Stateless model checking of the real threaded processor with a consumer that stops pulling after k chunks: every schedule with up to B delays runs until quiescence (no enabled thread); the number of source chunks produced at rest must be the same set for runs of N and 2N chunks (N above the buffer ceiling) and below k + stages x (2 x capacity + 2); in every state no eager mailbox exceeds its capacity; a monitor on Mailbox._can_fetch checks at every sender gate decision that a driving subscriber waits for a message that is not in the mailbox. The bare lazy mailbox is additionally explored over its FULL reachable state space with the same monitor.",
     "delay bound 1 (2 for chain2) for the processor layer; full state space only for the bare mailbox (<=3-4 messages, <=3 subscribers); worker pools not covered (they disable lazy mode)",
